@@ -187,6 +187,13 @@ func (s *Session) handle(p *com.Packet) bool {
 	if cout.Enabled {
 		s.log.Debug("[%s/ShC] Received response for Job %d.", s.ID, j.ID)
 	}
+	// Finish the Job under the lock, and only if it is still the tracked one: a
+	// Cancel or another result may have finished it since the lookup above.
+	s.lock.Lock()
+	if v, ok := s.jobs[j.ID]; !ok || v != j {
+		s.lock.Unlock()
+		return false
+	}
 	if j.Result, j.Complete, j.Status = p, time.Now(), StatusCompleted; p.Flags&com.FlagError != 0 {
 		j.Status = StatusError
 		if err := p.ReadString(&j.Error); err != nil {
@@ -195,12 +202,12 @@ func (s *Session) handle(p *com.Packet) bool {
 	} else if j.Result != nil {
 		s.handleInfoResult(j.ID, j.Type, j.Result)
 	}
-	s.lock.Lock()
 	delete(s.jobs, j.ID)
-	if s.lock.Unlock(); j.done != nil {
+	if j.done != nil {
 		close(j.done)
 		j.done = nil
 	}
+	s.lock.Unlock()
 	if j.Update != nil {
 		s.m.queue(event{j: j, jf: j.Update})
 	}
